@@ -63,16 +63,46 @@ def connDuring (d : Dialect) (c : Caps) (c0 : Val) : Val :=
 
 /-- `SOCol.<dialect>CreateSQL`: `' '.join([self.dbName, self._<dialect>Type()] + self._extraSQL())` -/
 theorem createSQL_generic (n : Nat) (T : Tables) (st : Style) (tb : Str) (c0 : Val) (col : Col) (d : Dialect) (c : Caps)
-    (ty : Str)
-    (hr : prog.resolve (.meth (clsOf col.kind) (csM d)) = some (csFn d))
-    (hne : (prog.mroOf (clsOf col.kind)).contains C_SOEnumCol = false)
+    (ty : Str) (callee : Callee)
+    (hr : prog.resolve callee = some (csFn d))
+    (hne : d = .firebird → C_SOEnumCol ∉ prog.mroOf (clsOf col.kind))
     (hty : callN prog ddlI (n + 1) (.meth (clsOf col.kind) (tyM d)) [colV T st tb (connDuring d c c0) col] = .ok (.str ty)) :
-    callN prog ddlI (n + 2) (.meth (clsOf col.kind) (csM d)) (colV T st tb c0 col :: csArgs d c) =
+    callN prog ddlI (n + 2) callee (colV T st tb c0 col :: csArgs d c) =
       .ok (.str (col.db st ++ spaced (ty :: extraPieces TX col))) := by
   rw [callX_succ _ _ _ _ hr]
   have hx := fun c0 => extraSQL_call n T st tb c0 col (resolve_extraSQL col.kind)
   have h1 := aget_kindFields_common T col.kind "dbName" (by simp)
-  cases d <;> simp only [csFn, csArgs, connDuring, tyM] at hty ⊢ <;>
+  have hne' := fun h => hne h
+  cases d <;> simp only [csFn, csArgs, connDuring, tyM, forall_const, reduceCtorEq, false_implies] at hty hne' ⊢ <;>
     pyxwith [hx, strList, joinStr_blank]
+
+/-- … and when the type method raises, so does `<dialect>CreateSQL` -/
+theorem createSQL_generic_exc (n : Nat) (T : Tables) (st : Style) (tb : Str) (c0 : Val) (col : Col) (d : Dialect) (c : Caps)
+    (e : Exc) (callee : Callee)
+    (hr : prog.resolve callee = some (csFn d))
+    (hne : d = .firebird → C_SOEnumCol ∉ prog.mroOf (clsOf col.kind))
+    (hty : callN prog ddlI (n + 1) (.meth (clsOf col.kind) (tyM d)) [colV T st tb (connDuring d c c0) col] = .exc e) :
+    callN prog ddlI (n + 2) callee (colV T st tb c0 col :: csArgs d c) = .exc e := by
+  rw [callX_succ _ _ _ _ hr]
+  have h1 := aget_kindFields_common T col.kind "dbName" (by simp)
+  have hne' := fun h => hne h
+  cases d <;> simp only [csFn, csArgs, connDuring, tyM, forall_const, reduceCtorEq, false_implies] at hty hne' ⊢ <;>
+    pyx
+
+theorem spaced_cons (a : Str) (l : List Str) : spaced (a :: l) = 32 :: a ++ spaced l := by simp [spaced]
+
+theorem spaced_append (l1 l2 : List Str) : spaced (l1 ++ l2) = spaced l1 ++ spaced l2 := by simp [spaced]
+
+/-- a piece that is itself a blank-joined list of pieces -/
+theorem spaced_joinStr (l : List Str) (h : l ≠ []) : spaced [joinStr [32] l] = spaced l := by
+  cases l with
+  | nil => exact absurd rfl h
+  | cons a l => rw [joinStr_blank, spaced_cons, spaced_cons]; simp [spaced]
+
+/-- the translated renderer agrees with the hand model: same text, or both refuse -/
+def agrees (r : R Val) (o : Option Str) : Prop :=
+  match o with
+  | some s => r = .ok (.str s)
+  | none => ∃ e, r = .exc e
 
 end SqlObjVerif.DdlX
